@@ -22,6 +22,7 @@ Qed.
 Section Charset.
   Variable T : Type.
   Variable encodable : list Z -> T -> bool.
+  Variable usable : list Z -> bool.
 
   Notation chunkT := (chunk T).
   Notation all_enc := (all_encodable T encodable).
@@ -164,7 +165,7 @@ Section Charset.
 
   Lemma find_charset_spec c oneshot els b r s :
     buffered_repaired c oneshot -> els <> [] ->
-    find_charset T encodable c oneshot (Some els) b = (r, s) ->
+    find_charset T encodable usable c oneshot (Some els) b = (r, s) ->
     body T s = b /\
     match r with
     | Some (Some cs) => chosen_ok c els b cs
@@ -219,7 +220,7 @@ Section Charset.
 
   Lemma thm_charset c oneshot ct els b :
     buffered_repaired c oneshot -> els <> [] ->
-    match encode_tool T encodable c oneshot ct (Some els) b with
+    match encode_tool T encodable usable c oneshot ct (Some els) b with
     | CChosen cs dropped => dropped = 0 /\ chosen_ok c els b cs
     | C406 => none_ok c els b
     | C500 => False
@@ -229,7 +230,7 @@ Section Charset.
     intros Hc Hne. unfold encode_tool. destruct ct as [v|]; [|exact Logic.I].
     destruct (c_add_charset c && (negb (c_text_only c) || startswith (lower v) s_text_slash));
       [|exact Logic.I].
-    destruct (find_charset T encodable c oneshot (Some els) b) as [r s] eqn:Ef.
+    destruct (find_charset T encodable usable c oneshot (Some els) b) as [r s] eqn:Ef.
     destruct (find_charset_spec _ _ _ _ _ _ Hc Hne Ef) as [Hb Hr].
     destruct r as [[cs|]|]; [|assumption|assumption].
     split; [rewrite Hb; lia|assumption].
@@ -242,16 +243,20 @@ Definition s_utf8 : list Z := [117;116;102;45;56].
 (** text chunk 0 is plain ASCII (every charset encodes it), any other text
     chunk needs utf-8 *)
 Definition ex_enc (cs : list Z) (t : Z) : bool := if t =? 0 then true else eqbZs cs s_utf8.
+Definition ex_usable (cs : list Z) : bool := negb (eqbZs cs s_deflate).
 Definition ex_cfg (stream rep_q0 rep_mat : bool) : ccfg := CCfg stream None s_utf8 true true rep_q0 rep_mat.
 
 Lemma ex_charset :
   buffered_repaired (ex_cfg false true true) true
-  /\ encode_tool Z ex_enc (ex_cfg false true true) true (Some s_text_plain)
+  /\ encode_tool Z ex_enc ex_usable (ex_cfg false true true) true (Some s_text_plain)
        (Some [el s_iso 1000; el s_utf8 500]) [CText 0; CBytes; CText 1] = CChosen s_utf8 0
-  /\ encode_tool Z ex_enc (ex_cfg false true true) true (Some s_text_plain)
+  /\ encode_tool Z ex_enc ex_usable (ex_cfg false true true) true (Some s_text_plain)
        (Some [el s_utf8 0; el s_star 1000]) [CText 1] = C406
-  /\ encode_tool Z ex_enc (ex_cfg false true true) true (Some s_text_plain)
-       (Some [el s_deflate 0]) [CText 0] = CChosen s_iso 0.
+  /\ encode_tool Z ex_enc ex_usable (ex_cfg false true true) true (Some s_text_plain)
+       (Some [el s_deflate 0]) [CText 0] = CChosen s_iso 0
+  (* streamed: a name without a codec is skipped *)
+  /\ encode_tool Z ex_enc ex_usable (ex_cfg true true true) true (Some s_text_plain)
+       (Some [el s_deflate 1000; el s_utf8 500]) [CText 1] = CChosen s_utf8 0.
 Proof.
   split; [unfold buffered_repaired; cbn; auto|]. vm_compute. auto.
 Qed.
